@@ -209,6 +209,69 @@ def h_uri(sym):
         assert drv._thread.rate_limit == rate_limit
     assert drv._thread._radio is radio
     sym.goal('connected')
+    if B.get('replug') and serials:
+        # the set / order of attached dongles changes (one unplugged, or re-enumerated the other way round) and the SAME URI is
+        # connected again: a serial number names a dongle, not the index it happened to have
+        how = sym.choice('replug', 2)
+        new = list(reversed(serials)) if how == 0 else list(serials[:devid]) + list(serials[devid + 1:])
+        mgr2 = E.isolate(new)
+        drv2 = RadioDriver()
+        try:
+            drv2.connect(uri, None, None)
+            raised2 = None
+        except Exception as e:
+            raised2 = _user_exc(e)
+        if how == 0:
+            assert raised2 is None and mgr2.opened == [len(serials) - 1 - devid], 'after re-enumeration the URI opened another dongle'
+            sym.goal('re-enumerated')
+        else:
+            assert raised2 is not None and mgr2.opened == [], 'the URI of an unplugged dongle opened some other dongle'
+            sym.goal('unplugged')
+
+
+def h_serial_replug(sym):
+    """Histories on serial-number URIs with CONCRETE text (so that any caching keyed on the URI string behaves as in production):
+    connect, the dongle list changes (re-enumerated in another order / the dongle unplugged / another one added in front), the same
+    URI string is connected again.  A serial number names a dongle, not the index it happened to have."""
+    all_serials = ['E7E7E7E7A1', 'E7E7E7E7B2', 'E7E7E7E7C3']
+    n = 2 + sym.choice('dongles', 2)
+    serials = all_serials[:n]
+    k = sym.choice('which', n)
+    chan = 10 + sym.int('chan_units', 0, 9)
+    uri = 'radio://%s/%d/2M' % (serials[k], 10 + sym.choice('chan_choice', 3))
+    del chan
+    sym.apply_known()
+    lists = [serials]
+    for step in range(sym.B['steps']):
+        how = sym.choice(f'change{step}', 4)
+        cur = lists[-1]
+        if how == 0:
+            new = list(reversed(cur))
+        elif how == 1:
+            new = [x for x in cur if x != serials[k]]
+        elif how == 2:
+            new = ['0123456789'] + list(cur)
+        else:
+            new = list(cur)
+        lists.append(new)
+    for cur in lists:
+        mgr = E.isolate(cur)
+        drv = RadioDriver()
+        try:
+            drv.connect(uri, None, None)
+            raised = None
+        except Exception as e:
+            raised = _user_exc(e)
+        if serials[k] in cur:
+            assert raised is None, 'URI of an attached dongle rejected'
+            assert mgr.opened == [cur.index(serials[k])], 'the URI opened a dongle with another serial number'
+            sym.goal('opened')
+        else:
+            assert raised is not None and not isinstance(raised, WrongUriType) and mgr.opened == [], \
+                'the URI of an unplugged dongle opened some other dongle'
+            sym.goal('unplugged')
+    if len(lists) > 1 and lists[1] != lists[0]:
+        sym.goal('dongle-list-changed')
 
 
 # ---------------------------------------------------------------------------------------------------- (2) scan round trip
@@ -763,6 +826,12 @@ HARNESSES = [
     Harness('uri[serial/ch/rate/addr]', h_uri, quick=dict(dongle='serial', serials=2, fields=3, alen=(10,), rates=('1M',)),
             thorough=dict(dongle='serial', serials=3, fields=3, alen=(10,), rates=('250K', '2M')),
             goals=('connected', 'unknown-serial'), timeout=_TO, per_path=120.0),
+    Harness('uri[serial,replug]', h_uri, quick=dict(dongle='serial', serials=2, fields=0, replug=True), thorough=dict(dongle='serial', serials=3, fields=1, replug=True),
+            goals=('connected', 're-enumerated', 'unplugged'), timeout=_TO, per_path=120.0,
+            note='the same serial-number URI connected again after the dongle list changed'),
+    Harness('serial[replug]', h_serial_replug, quick=dict(steps=2), thorough=dict(steps=3), symbolic=False, replay_all=True,
+            goals=('opened', 'unplugged', 'dongle-list-changed'), timeout=(200, 600),
+            note='every explored history is also replayed on plain CPython (the engine bypasses functools.lru_cache); concrete URI text; the dongle count, which dongle the URI names and how the dongle list changes between connects are solver choices'),
     Harness('uri[serial/ch]', h_uri, quick=dict(dongle='serial', serials=2, fields=1), thorough=dict(dongle='serial', serials=3, fields=1),
             goals=('connected', 'unknown-serial', 'defaults'), timeout=_TO, per_path=120.0),
 ] + [
